@@ -104,6 +104,8 @@ def strat_prop(tier):
         # pixel spacing in units of the medium wavelength: both sides of 1/2 and of 1/sqrt(2)
         "sp": st.tuples(gen.logu(0.1, 5.0), st.one_of(st.just(None), gen.logu(0.1, 5.0))).map(list),
         "nm": st.sampled_from([1.0, 1.33, 1.5]), "wl": gen.rounded(0.3, 1.0, 4),
+        # length unit: the same physical configuration expressed in metres ... nanometres (HoloPy is unit-agnostic)
+        "unit": st.sampled_from([1.0, 1.0, 1e-6, 1e-9, 1e3, 1e-3, 1e6]),
         "seed": st.integers(0, 2 ** 31 - 1), "complex": st.booleans(),
         "d1": dist, "d2": dist,
         "ab": st.tuples(st.floats(-3, 3), st.floats(-3, 3), st.floats(-3, 3), st.floats(-3, 3)).map(list),
@@ -117,7 +119,7 @@ def run_prop(case):
     import xarray as xr
     from holopy.propagation import propagate
     from holopy.core.metadata import update_metadata
-    nm, wl = case["nm"], case["wl"]
+    nm, wl = case["nm"], case["wl"] * case.get("unit", 1.0)
     lam = wl / nm
     spx = case["sp"][0] * lam
     spy = (case["sp"][1] if case["sp"][1] else case["sp"][0]) * lam
@@ -136,7 +138,7 @@ def run_prop(case):
     evan = bool((root < 0).any())
     rel = case["rel"]
     labels = [rel, "evanescent" if evan else "propagating", "odd" if (nx % 2 or ny % 2) else "even",
-              "square" if nx == ny else "nonsquare"]
+              "square" if nx == ny else "nonsquare", "unit_%g" % case.get("unit", 1.0)]
     nrm = lambda v: float(np.sqrt((np.abs(np.asarray(v)) ** 2).sum()))
     na = nrm(a.values)
 
@@ -252,7 +254,7 @@ SUBCHECKS = [
         "+-1/(2 spacing); non-trivial = an odd dimension or non-square",
         enumerate_cases=enum_shapes, tolerances={"rel": 1e-12}),
     Sub("propagation_laws", strat_prop, run_prop, 4000, 80000,
-        "shapes 2..24 (thorough 64), spacing 0.1-5 medium wavelengths (both sides of 1/2 and 1/sqrt 2), distances "
+        "shapes 2..24 (thorough 64), all lengths expressed in a unit from {1, 1e-9, 1e-6, 1e-3, 1e3, 1e6}, spacing 0.1-5 medium wavelengths (both sides of 1/2 and 1/sqrt 2), distances "
         "+-1e-2..1e3 wavelengths, real/complex data: P(0)=id, P(d2)P(d1)=P(d1+d2), P(-d)P(d)=id when no frequency is "
         "evanescent (decided by the harness), linearity, energy never increases (= when not evanescent), list of "
         "distances (incl. 0) = stack of singles by z label, cfsp=k = k-fold composition, gradient_filter=g = P(d)-P(d+g), "
